@@ -28,8 +28,9 @@ async def work(*args, **kwargs):
     rec.gates.append(f)
     try:
         await f
-    except asyncio.CancelledError:
+    except asyncio.CancelledError as e:
         rec.cancels += 1
+        rec.invocations.append(("cancelled-with", repr(e.args)))
         raise
     return "done"
 
